@@ -48,8 +48,27 @@ def _caller_ensures(fn, n, valued):
     return e
 
 
+def _runner_contract_decls():
+    """external_body declarations of the Runner methods whose ensures are exactly runner_ensures(...) (proved in v_closure_runner)"""
+    sigs = [("run_key_value", "key: ItemKey, value: ItemVal", "Resolved", 2, True),
+            ("run_index_value", "index: usize, value: ItemVal", "Resolved", 2, True),
+            ("map_key", "key: ItemKey", "Result<(), ExpressionError>", 1, False),
+            ("map_value", "value: ItemVal", "Result<(), ExpressionError>", 1, False)]
+    out = ["impl Runner {"]
+    for name, params, ret, n, valued in sigs:
+        out.append("    #[verifier::external_body]")
+        out.append("    pub fn %s(&self, ctx: &mut Context, %s) -> (r: %s)" % (name, params, ret))
+        out.append("        ensures")
+        for oid, _text, expr in runner_ensures(name, n, valued):
+            out.append("            %s, // = %s" % (expr, oid))
+        out.append("    { unimplemented!() }")
+    out.append("}")
+    return "\n".join(out)
+
+
 UNITS["v_closure_callers"] = dict(
     prop=["C13", "C06", "C07"], tier="q", prelude=["interp.rs", "closure.rs", "closurecallers.rs"],
+    extra=_runner_contract_decls(),
     native_witness={"C13": ["closure_scope"], "C06": ["ctl_programs"], "C07": ["ctl_programs"]},
     fns=[
         dict(id="for_each", file="src/stdlib/for_each.rs", impl=None, name="for_each",
